@@ -128,6 +128,7 @@ func vf_ExpectPanic()              { vfS.expectPanic = true }
 func vf_Stop()                     { panic(vfStop{}) }
 func vf_Cover(label string)        {}
 func vf_Symbolic() bool            { return false }
+func vf_Tier() int                 { return int(vfS.model["__tier"]) }
 func vf_Printed() int              { return 0 }
 func vf_NoPanic(f func(), label string) {
 	defer func() {
